@@ -112,7 +112,7 @@ class Report(object):
                 with open(path, "w") as fh:
                     json.dump({"property": self.pid, "rule": o.rule, "site": o.site, "key": o.key,
                                "detail": o.detail, "path": o.path}, fh, indent=1)
-            lines.append("%s: %s -- %s" % (o.site, o.rule, o.detail))
+            lines.append("%s: %s -- %s  [%s]" % (o.site, o.rule, o.detail, o.key))
             for p in o.path[:40]:
                 lines.append("      %s" % p)
             lines.append("VIOLATION property=%s replay=%s" % (self.pid, path))
